@@ -211,6 +211,8 @@ class BaseParser:
     def __contains__(self, item):
         return item in self.fields
 
+    forward_type_slots = ()
+
     def resolve_forward_refs(self, local_vars=None, ignore_errors: bool = True):
         if not self.forward_refs:
             return False
@@ -268,6 +270,10 @@ class BaseParser:
                     field.resolve_forward_refs()
                 # resolve for types
                 self.addition_type, r = resolve_forward_type(self.addition_type)
+                for attr in self.forward_type_slots:
+                    # the other types a parser holds (*args / return type of a function): replaced here,
+                    # before the refs of a parser made inside a function are un-evaluated again
+                    setattr(self, attr, resolve_forward_type(getattr(self, attr))[0])
             if self.is_local:
                 # ForwardRef in local vars is not cachable
                 # where typing is using a lru_cache
